@@ -14,6 +14,7 @@ interpreter `run` (memoised, every instruction once) computes exactly it.
 -/
 import ForML.Lemmas.C02Dask
 import ForML.Lemmas.C02PyExpr
+import ForML.Lemmas.C02PyFull
 import ForML.Model.PyFuncLegacy
 
 namespace ForML.Flow
@@ -107,11 +108,12 @@ example : exTrain.sinks = [.uid 3, .committer] := by decide
 
 open PyFunc
 
-/-- **Full statement**: for every valid apply-mode table (one sink, one head) the `Expression` is constructed and
-every call returns the value of the direct dependency-ordered evaluation of the table whose head received the
-input. (The code before fixes/C02-pyfunc-replica-fork.diff violated this: DESIGN.md D1, D2. For the repaired code
-the second half is `C02_pyfunc_partial`; that construction never fails is checked by the correspondence harness
-on every generated table and stated here.) -/
+/-- **Full statement**: for every valid apply-mode table (`Table.applyMode`: apply functors whose state presets are
+fed by loaders of persistent groups, getters, argument-free loaders, one sink, one head — any fan-out, any branch
+lengths, any argument order, shared results, multi-output getters, shared loaders) the `Expression` is constructed
+and every call returns the value of the direct dependency-ordered evaluation of the table whose head received the
+input. (The code before fixes/C02-pyfunc-replica-fork.diff violated this: DESIGN.md D1, D2 — see
+`C02_pyfunc_legacy_counterexample` below.) Proved for the repaired code as `C02_pyfunc`. -/
 def C02_pyfunc_full : Prop :=
   ∀ (A : Option Assets) (t : Table) (r : Key → Nat), t.ranked r = true → t.applyMode A = true →
     ∃ U hd sink, expression A t = .ok U ∧ t.sinks = [sink] ∧ t.heads = [hd] ∧
@@ -130,6 +132,14 @@ theorem C02_pyfunc_partial (A : Option Assets) (t : Table) (r : Key → Nat) (h 
   refine ⟨hd, sink, h1, h2, fun x => ⟨h3 x, ?_⟩⟩
   simp only [evalExpr, he]
   exact congrArg Except.ok (h3 x)
+
+/-- **The single-function runner = dependency-ordered evaluation** on every valid apply-mode table: construction
+never fails (`_order` terminates and lists every argument before its consumer, `_build` finds every term, no
+provider deque is ever empty when popped, nothing is outstanding) and every call delivers the sink's value. -/
+theorem C02_pyfunc : C02_pyfunc_full := by
+  intro A t r h ham
+  obtain ⟨U, hd, he, hh, sink, hs, hv⟩ := expression_ok (ranked_iff h) (applyMode_iff ham)
+  exact ⟨U, hd, sink, he, hs, hh, hv⟩
 
 /-- the two defect shapes of DESIGN.md section 7 and richer ones: fan-out at the head (D1), the shorter branch of a
 shared result first (D2), getters, shared state loader — the expression is constructed and delivers the
